@@ -41,7 +41,7 @@ NOT_MODELLED = ['reference images, parenthesised reference titles', 'raw HTML', 
 def strategy(tier):
     return st.one_of(
         st.fixed_dictionaries({'kind': st.just('model'), 'doc': gdoc.document(CFG_MMD), 'smart': st.booleans(), 'compat': st.just(False),
-                               'collide': st.sampled_from([0, 0, 1, 2]), 'nolabels': st.sampled_from([False, False, False, True]), 'mlabel': st.sampled_from([0, 1, 2, 2]), 'crlf': st.sampled_from([False, False, True]), 'capline': st.booleans()}),
+                               'collide': st.sampled_from([0, 0, 1, 2]), 'nolabels': st.sampled_from([False, False, False, True]), 'mlabel': st.sampled_from([0, 1, 2, 2]), 'crlf': st.sampled_from([False, False, True]), 'capline': st.booleans(), 'colspan': st.sampled_from([0, 0, 1, 2, 3])}),
         st.fixed_dictionaries({'kind': st.just('model'), 'doc': gdoc.document(CFG_COMPAT), 'smart': st.booleans(), 'compat': st.just(True), 'crlf': st.sampled_from([False, False, True])}),
         st.fixed_dictionaries({'kind': st.just('comp'), 'doc': gdoc.document(CFG_COMP), 'smart': st.booleans(), 'compat': st.booleans()}),
     )
@@ -132,6 +132,14 @@ def check(case, ctx):
     if doc.pop('angles_escaped'):
         ctx.cls('excluded_known_angle_pair')
     doc['meta'] = None
+    if case.get('colspan') and not compat:
+        # a body cell that spans two columns (`| x || y |`), in tables with at least three columns: the cells after it keep THEIR columns' alignment
+        for b_ in doc['blocks']:
+            if b_[0] == 'table' and len(b_[1]) >= 3 and (len(b_) < 6 or b_[5] is True):
+                for r_ in b_[3]:
+                    j_ = (case['colspan'] - 1) % (len(r_) - 1)
+                    r_[j_ + 1] = None
+                ctx.cls('table_with_spanning_cell')
     if case.get('capline') and not compat:
         # an ordinary paragraph that merely BEGINS like a caption line, right after a table: it stays a paragraph
         for i_, b_ in enumerate(doc['blocks']):
